@@ -352,11 +352,12 @@ int tls_cbc_decrypt(const SM3_HMAC_CTX *inited_hmac_ctx, const SM4_KEY *dec_key,
 	sm4_cbc_decrypt_blocks(dec_key, iv, in, inlen/16, out);
 
 	padding_len = out[inlen - 1];
-	padding = out + inlen - padding_len - 1;
-	if (padding < out + 32) {
+	// check with integers, (out + inlen - padding_len - 1) might point before `out`
+	if ((size_t)padding_len + 1 + 32 > inlen) {
 		error_print();
 		return -1;
 	}
+	padding = out + inlen - padding_len - 1;
 	for (i = 0; i < padding_len; i++) {
 		if (padding[i] != padding_len) {
 			error_puts("tls ciphertext cbc-padding check failure");
